@@ -11,16 +11,17 @@ ONE_MINUS = 1.0 - 2.0 ** -53
 
 
 class SimRandom:
-    def __init__(self, explicit=None, source=None, budget=10 ** 6):
+    def __init__(self, explicit=None, source=None, budget=10 ** 6, ab_source=None):
         self.explicit = list(explicit) if explicit is not None else None
         self.source = source
+        self.ab_source = ab_source     # callable(a, b) -> unit draw, for sources that aim at a *value*
         self.queue = []
         self.consumed = []
         self.budget = budget
         self.pos = 0
         self.on_draw = None
 
-    def _next(self):
+    def _next(self, a=None, b=None):
         if len(self.consumed) >= self.budget:
             raise Inconclusive("draw budget of %d exhausted" % self.budget)
         if self.explicit is not None:
@@ -28,6 +29,8 @@ class SimRandom:
                 raise Inconclusive("explicit draw list exhausted after %d draws" % self.pos)
             u = self.explicit[self.pos]
             self.pos += 1
+        elif self.ab_source is not None:
+            u = self.ab_source(a, b)
         else:
             if not self.queue:
                 grp = self.source()
@@ -50,7 +53,7 @@ class SimRandom:
         return self._next()
 
     def uniform(self, a, b):
-        return a + (b - a) * self._next()
+        return a + (b - a) * self._next(a, b)
 
     def randint(self, a, b):
         return a + int(self._next() * (b - a + 1))
